@@ -629,7 +629,7 @@ def undefine_unused_variables(source: str, preserve: Collection[str] = frozenset
             yield name, ast.Name(id="_")
             yielded.add(name)
 
-    if any(core.walk(root, ast.Name(id="_", ctx=ast.Load))):
+    if any(core.walk(root, (ast.Name(id="_", ctx=ast.Load), ast.Attribute(attr="_")))):
         return  # "_" is read somewhere, so assignments to it are not throwaway
 
     for node in core.walk(
@@ -832,7 +832,9 @@ def delete_pointless_statements(source: str) -> str:
     ast_tree = core.parse(source)
     safe_callables = parsing.safe_callable_names(ast_tree)
     # "_" is only a throwaway name as long as nothing reads it (e.g. _ = gettext.gettext)
-    underscore_is_read = any(core.walk(ast_tree, ast.Name(id="_", ctx=ast.Load)))
+    underscore_is_read = any(
+        core.walk(ast_tree, (ast.Name(id="_", ctx=ast.Load), ast.Attribute(attr="_")))
+    )
     for node in itertools.chain([ast_tree], parsing.iter_bodies_recursive(ast_tree)):
         for i, child in enumerate(node.body):
             if underscore_is_read and (
